@@ -52,7 +52,7 @@ int c_var2h(int nvalvar, int nvalh,
 
     /* Set first time step to be immediately before hstart */
     varindex = 0;
-    while(varsec[varindex]<=hstartsec) varindex++;
+    while(varindex<nvalvar && varsec[varindex]<=hstartsec) varindex++;
     varindex--;
 
     /* hstart is smaller than first value in varsec */
@@ -67,6 +67,15 @@ int c_var2h(int nvalvar, int nvalh,
     /* Initialisation */
     nan = zero/zero;
     ierr = 0;
+
+    /* No data point after hstart: no period can be computed */
+    if(varindex+1>=nvalvar)
+    {
+        for(i=0; i<nvalh-1; i++)
+            hvalues[i] = nan;
+
+        return ierr;
+    }
 
     /* Loop through instantaneous data */
     for(i=0; i<nvalh-1; i++)
